@@ -239,3 +239,34 @@ pub fn simple_reg(ctx: &mut Ctx, url: &str, rp: Option<&str>) -> RegOp {
 pub fn simple_auth(ctx: &mut Ctx, url: &str, rp: Option<&str>) -> AuthOp {
     AuthOp { org: Org::Web(url.to_string()), allow_localhost: false, rp: rp.map(|s| s.to_string()), challenge: ctx.rng.bytes(32), allow: None, allow_last: false, allow_refs: vec![], unk: vec![], uv: UvR::Preferred, ext: None, cd: CdMode::Default }
 }
+
+/// C14: a real registration and authentication; the JSON serialisations of the two emitted credentials
+pub fn emit_pair(ctx: &mut Ctx, i: usize) -> Vec<(String, String)> {
+    let log = new_log();
+    let uvst = Arc::new(Mutex::new(UvState::ok()));
+    let store = RecStore::new(MemoryStore::new(), log.clone());
+    let mut auth = Authenticator::new(Aaguid::from(crate::util::AAGUID), store, SharedUv { st: uvst, log: log.clone(), yields: false });
+    auth.set_make_credentials_with_signature_counter(i % 2 == 0);
+    if i % 3 != 0 { auth = auth.hmac_secret(passkey_authenticator::extensions::HmacSecretConfig::new_without_uv().enable_on_make_credential()); }
+    let mut client = Client::new(auth);
+    let url = Url::parse("https://www.example.com").unwrap();
+    let prf = |ctx: &mut Ctx| AuthenticationExtensionsPrfInputs { eval: Some(AuthenticationExtensionsPrfValues { first: ctx.rng.bytes_in(1, 20).into(), second: if ctx.rng.bool() { Some(ctx.rng.bytes(4).into()) } else { None } }), eval_by_credential: None };
+    let opts = webauthn::CredentialCreationOptions { public_key: webauthn::PublicKeyCredentialCreationOptions {
+        rp: webauthn::PublicKeyCredentialRpEntity { id: Some("example.com".into()), name: "rp".into() },
+        user: webauthn::PublicKeyCredentialUserEntity { id: ctx.rng.bytes_in(1, 32).into(), display_name: "d".into(), name: "n".into() },
+        challenge: ctx.rng.bytes_in(0, 48).into(),
+        pub_key_cred_params: vec![PublicKeyCredentialParameters { ty: PublicKeyCredentialType::PublicKey, alg: coset::iana::Algorithm::ES256 }],
+        timeout: None, exclude_credentials: None, authenticator_selection: None, hints: None, attestation: Default::default(), attestation_formats: None,
+        extensions: if i % 4 == 0 { None } else { Some(AuthenticationExtensionsClientInputs { cred_props: if i % 2 == 0 { Some(true) } else { None }, prf: if i % 3 == 1 { Some(prf(ctx)) } else { None }, prf_already_hashed: None }) } } };
+    let mut out = vec![];
+    let Ok(c) = block_on(client.register(&url, opts, DefaultClientData)) else { return out; };
+    let id = c.raw_id.to_vec();
+    out.push(("created".to_string(), serde_json::to_string(&c).unwrap()));
+    let opts = webauthn::CredentialRequestOptions { public_key: webauthn::PublicKeyCredentialRequestOptions {
+        challenge: ctx.rng.bytes_in(0, 48).into(), timeout: None, rp_id: Some("example.com".into()),
+        allow_credentials: Some(vec![PublicKeyCredentialDescriptor { ty: PublicKeyCredentialType::PublicKey, id: id.into(), transports: None }]),
+        user_verification: Default::default(), hints: None, attestation: Default::default(), attestation_formats: None,
+        extensions: if i % 3 == 1 { Some(AuthenticationExtensionsClientInputs { cred_props: None, prf: Some(prf(ctx)), prf_already_hashed: None }) } else { None } } };
+    if let Ok(a) = block_on(client.authenticate(&url, opts, DefaultClientData)) { out.push(("authenticated".to_string(), serde_json::to_string(&a).unwrap())); }
+    out
+}
